@@ -17,6 +17,7 @@ import ZCV.CodecElab
 import ZCV.Model.LoggerSetup
 import ZCV.Model.UrlPath
 import ZCV.Model.Timedelta
+import ZCV.Model.LogFormat
 /-! Line-protocol driver: one request per line, one answer per line. Imports Spec + Model + Gen only. -/
 open ZCV ZCV.SExp ZCV.Codec ZCV.Cfg
 
@@ -237,6 +238,13 @@ def handle (st : DState) : SExp → DState × SExp
       | .error .valueError => .list [.atom "err", .atom "ValueError"]
       | .error .typeError => .list [.atom "err", .atom "TypeError"]
       | .error (.other n) => .list [.atom "err", .str n])
+  -- (logfmt "configured format text") → (acceptsConfigured loadCheck-of-the-rewritten-text) : t|f  ok|ValueError|TypeError|KeyError|OverflowError
+  | .list [.atom "logfmt", .str raw] =>
+    (st, .list [ofBool (LogFormat.acceptsConfigured raw),
+                match LogFormat.loadCheck (LogFormat.ctrlCharInsert raw) with
+                | .ok _ => .atom "ok"
+                | .error .valueError => .atom "ValueError" | .error .typeError => .atom "TypeError"
+                | .error .keyError => .atom "KeyError" | .error .overflowError => .atom "OverflowError"])
   | .list [.atom "ping"] => (st, .atom "pong")
   | _ => (st, .list [.atom "bad-request"])
 
